@@ -26,6 +26,18 @@ def make_cases(rng, tier, diff_here):
                         cases.append(base(tagged, rules, b=b, names=nl, hold=hold))
                         if stop_pos is None:
                             cases.append(base(plain, rules, b=b, names=nl, hold=hold))
+                            cases[-2]["twin"] = len(cases) - 1      # same rule set, tag never set: the two observations must agree
+    # never-set tag with SEVERAL failing rules: the error of both variants must name the same failing rules
+    for k in (3, 4, 5):
+        for f in itertools.combinations(range(k), 2) if k < 5 else [(1, 2, 3), (0, 2, 4), (1, 3, 4), (2, 3, 4)]:
+            rules = [{"name": NAMES[i], "sal": 9 - i, "kind": ("fail", "panic1", "retfail")[i % 3] if i in f else ("ret" if i % 2 == 0 else "plain"),
+                      "stop": False, "ver": 100 + i} for i in range(k)]
+            names = [r["name"] for r in rules]
+            for tagged, plain in PAIRS:
+                nl = names if "Selected" in tagged else []
+                cases.append(base(tagged, rules, b=True, names=nl))
+                cases.append(base(plain, rules, b=True, names=nl))
+                cases[-2]["twin"] = len(cases) - 1
     # tag already set when the call starts
     rules = [{"name": NAMES[i], "sal": 9 - i, "kind": "ret", "stop": False, "ver": 100 + i} for i in range(3)]
     for tagged, _ in PAIRS:
@@ -38,7 +50,7 @@ def make_cases(rng, tier, diff_here):
 
 
 RULE = ("systematic: rule sets of size 1-4 (thorough 1-5) x every position of the tag-setting rule (and 'never set') x failing subsets of size <=1 x both flags, through the 4 stop-tag variants, "
-        "and the same sets through the 4 plain counterparts when the tag is never set; tag already set at call start; random: 150 (thorough 4000) calls.")
+        "and the same sets through the 4 plain counterparts when the tag is never set — the two observations (error flag, the failing rules the error names, result map) must then agree, also with 2-3 failing rules; tag already set at call start; random: 150 (thorough 4000) calls.")
 
 
 def main(run):
